@@ -23,7 +23,7 @@ from typing import Any, Protocol
 
 import pyarrow as pa
 
-from harness.common import rpcutil
+from harness.common import httpapps, rpcutil
 from harness.common.lean import j2s, s2j
 
 PROPERTY = "C40"
@@ -313,7 +313,7 @@ def build(cfg: dict[str, Any], prefix: str, full_pages: bool) -> Any:
                 enable_describe_page=full_pages, enable_landing_page=full_pages, cors_origins="*" if full_pages else None,
             )
             kw.update(bystander_kwargs(cfg.get("bystander", "none"), cfg, prefix))
-            app = make_wsgi_app(server, **kw)
+            app = httpapps.track(make_wsgi_app(server, **kw))
     finally:
         if old is None:
             os.environ.pop("VGI_HTTP_DISABLE_ZSTD", None)
@@ -394,6 +394,14 @@ def check_response(ctx: Any, cfg: dict[str, Any], prefix: str, kind: str, verb: 
 
 def run_cfg(ctx: Any, cfg: dict[str, Any], prefix: str, full_pages: bool, n_kinds: int | None,
             pre: tuple[Any, Any] | None = None) -> None:
+    try:
+        _run_cfg(ctx, cfg, prefix, full_pages, n_kinds, pre)
+    finally:
+        httpapps.dispose_all()  # a sticky app keeps a reaper thread ticking until told to stop
+
+
+def _run_cfg(ctx: Any, cfg: dict[str, Any], prefix: str, full_pages: bool, n_kinds: int | None,
+             pre: tuple[Any, Any] | None = None) -> None:
     import falcon.testing
 
     from vgi_rpc.http import http_capabilities
@@ -505,6 +513,13 @@ _ORIGIN_N = [0]
 
 
 def check_probe_sequence(ctx: Any, steps: list[dict[str, Any]], origin: str | None = None) -> None:
+    try:
+        _check_probe_sequence(ctx, steps, origin)
+    finally:
+        httpapps.dispose_all()
+
+
+def _check_probe_sequence(ctx: Any, steps: list[dict[str, Any]], origin: str | None = None) -> None:
     """Run deploy/probe steps against one origin; after every probe the result must equal the configuration the probed
     prefix serves *now* (O) and the model's `probe (capHeaders cfg)` for that configuration (K)."""
     from unittest.mock import patch
@@ -673,7 +688,7 @@ def run(ctx: Any) -> None:
     # probe sequences on one origin through the public http_capabilities() entry point (corpus first, then seeded)
     for steps in corpus_probe_sequences(ctx.seed):
         check_probe_sequence(ctx, steps)
-    for _ in range(ctx.budget(25, 400)):
+    for _ in range(ctx.budget(25, 150)):
         check_probe_sequence(ctx, gen_probe_sequence(ctx.rng, ctx.seed, ctx.rng.randrange(3, 9)))
     bits = all_bits()
     prefixes = ["", "/vgi", "/a/b"]
@@ -720,9 +735,21 @@ def run(ctx: Any) -> None:
             sets.append({name.lower(): v})
     foreign_probes(ctx, sets)
     primitives(ctx, ctx.budget(300, 8000))
+    httpapps.dispose_all()
+    import threading
+
+    ctx.note("threads_at_end", threading.active_count())
+    ctx.note("sticky_reaper_threads_at_end", httpapps.reaper_threads())
 
 
 def replay(ctx: Any, case: dict[str, Any]) -> None:
+    try:
+        _replay(ctx, case)
+    finally:
+        httpapps.dispose_all()
+
+
+def _replay(ctx: Any, case: dict[str, Any]) -> None:
     logging.getLogger("falcon").setLevel(logging.CRITICAL)
     logging.getLogger("vgi_rpc").setLevel(logging.CRITICAL)
     if "foreign_headers" in case:
